@@ -92,17 +92,19 @@ def build(src, flags, tag, cxx=None, extra_inputs=(), timeout=900, use_include=T
     out = os.path.join(BUILD, "%s-%s-%s%s" % (tag, fh8, h.hexdigest()[:16], "" if link else ".o"))
     if os.path.exists(out):
         return out
-    cmd = [cxx] + list(flags) + (["-I", INC] if use_include else []) + ["-I", SRC, srcp, "-o", out + ".tmp%d" % os.getpid()]
+    import threading
+    tmp = out + ".tmp%d_%d" % (os.getpid(), threading.get_ident())
+    cmd = [cxx] + list(flags) + (["-I", INC] if use_include else []) + ["-I", SRC, srcp, "-o", tmp]
     if not link:
         cmd.insert(1, "-c")
     r = subprocess.run(cmd, stdout=subprocess.PIPE, stderr=subprocess.STDOUT, timeout=timeout)
     if r.returncode != 0:
         try:
-            os.unlink(out + ".tmp%d" % os.getpid())
+            os.unlink(tmp)
         except OSError:
             pass
         raise BuildError(" ".join(cmd), r.stdout.decode(errors="replace"))
-    os.rename(out + ".tmp%d" % os.getpid(), out)
+    os.rename(tmp, out)
     # prune stale builds of the same tag (older header/harness contents)
     import glob
     for old in glob.glob(os.path.join(BUILD, "%s-%s-*" % (tag, fh8))):
